@@ -12,10 +12,13 @@ pub fn label_name(rng: &mut Rng) -> String {
     let first = *rng.pick(&["L", "l", "_", "Z", "q", "LOOP", "data", "Msg", "k9", "T_"]);
     let mut s = String::from(first);
     let nonascii = NON_ASCII_LABELS.with(|c| c.get());
-    for _ in 0..rng.below(4) { s.push(if nonascii && rng.chance(1, 3) { *rng.pick(&['é', 'É', 'ö', 'Ñ', 'α', 'Ω', 'ж', 'Ж']) } else { *rng.pick(&['a', 'B', '_', '0', '7', 'z', 'Q']) }); }
+    let lenchg = LEN_CHANGING_LABELS.with(|c| c.get());
+    for _ in 0..rng.below(4) { s.push(if lenchg && rng.chance(1, 2) { *rng.pick(&['\u{17F}', '\u{131}', '\u{149}', '\u{1F0}', '\u{FB01}']) } else if nonascii && rng.chance(1, 3) { *rng.pick(&['é', 'É', 'ö', 'Ñ', 'α', 'Ω', 'ж', 'Ж']) } else { *rng.pick(&['a', 'B', '_', '0', '7', 'z', 'Q']) }); }
     s
 }
 thread_local! { pub static NON_ASCII_LABELS: std::cell::Cell<bool> = const { std::cell::Cell::new(false) }; }
+// letters whose upper-casing has another UTF-8 length (ſ→S, ı→I, ŉ→ʼN, ǰ→J̌, ﬁ→FI)
+thread_local! { pub static LEN_CHANGING_LABELS: std::cell::Cell<bool> = const { std::cell::Cell::new(false) }; }
 
 /// canonical (span-free) form of what the parser should return for this statement
 pub fn canon(s: &GStmt) -> String {
